@@ -71,6 +71,16 @@ def isLiteral : Inline Bytes → Bool
   | .num _ => true
   | _ => false
 
+/-- what `get_inline_expression(only_literal = true)` accepts as the value of a named argument: string and
+number literals, and — the `is_ascii_alphabetic` branch is not guarded by `only_literal` — message references
+and function calls -/
+def isNamedValue : Inline Bytes → Bool
+  | .str _ => true
+  | .num _ => true
+  | .msg _ _ => true
+  | .fn _ _ _ => true
+  | _ => false
+
 def optIdent : Option Bytes → Bool
   | none => true
   | some a => validIdent a
@@ -81,7 +91,8 @@ def namesNodup (named : List (Bytes × Inline Bytes)) : Bool := decide (named.ma
 mutual
 /-- **`ValidInline`**: the inline expressions that can be written in FTL syntax: identifiers and
 number literals well-shaped, string literals with valid escapes only and no raw newline/quote,
-callee names upper-case, named-argument names unique with literal values, a nested placeable
+callee names upper-case, named-argument names unique with values that are literals, message references or
+function calls (`isNamedValue`), a nested placeable
 contains an inline expression (no select) that is not a term attribute. -/
 def validInline : Inline Bytes → Bool
   | .str v => validStrBody v
@@ -98,7 +109,7 @@ def validInl : List (Inline Bytes) → Bool
   | x :: xs => validInline x && validInl xs
 def validNamed : List (Bytes × Inline Bytes) → Bool
   | [] => true
-  | (n, v) :: xs => validIdent n && isLiteral v && validInline v && validNamed xs
+  | (n, v) :: xs => validIdent n && isNamedValue v && validInline v && validNamed xs
 /-- the expression inside `{ … }` -/
 def validInner : Expr Bytes → Bool
   | .inline (.term _ (some _) _) => false
@@ -318,31 +329,6 @@ theorem tidy_app3 (acc : Bytes) (b : Bool) (h : tidy acc = true) :
   · simpa using h
   · exact tidy_append _ _ (by decide)
 
-theorem serNamed_eq (named : List (Bytes × Inline Bytes)) (hv : validNamed named = true) (w : Writer) (acc : Bytes)
-    (written : Bool) (ha : tidy acc = true) :
-    (serNamed (w.writeLiteral acc) written named).map (fun w2 => w2.writeLiteral [41]) =
-      some (w.writeLiteral (acc ++ (if written && !named.isEmpty then [44, 32] else []) ++ namedTail named)) := by
-  induction named generalizing acc written with
-  | nil => simp [serNamed, namedTail, join_tidy _ _ _ ha]
-  | cons x xs ih =>
-    obtain ⟨n, v⟩ := x
-    simp only [validNamed, Bool.and_eq_true] at hv
-    obtain ⟨⟨⟨hn, hl⟩, hvv⟩, hxs⟩ := hv
-    rw [serNamed]
-    simp only [lit_comma, lit_colon]
-    have e1 : (if written = true then (w.writeLiteral acc).writeLiteral [44, 32] else w.writeLiteral acc) =
-        w.writeLiteral (acc ++ if written then [44, 32] else []) := by
-      cases written <;> simp [join_tidy _ _ _ ha]
-    have t1 := tidy_app3 acc written ha
-    rw [e1, join_tidy _ _ _ t1, join_tidy _ _ _ (tidy_append _ _ (validIdent_tidy hn))]
-    have t2 : tidy ((acc ++ if written then [44, 32] else []) ++ n ++ [58, 32]) = true :=
-      tidy_append _ _ (by decide)
-    obtain ⟨e3, t3⟩ := serInline_literal (w.writeLiteral ((acc ++ if written then [44, 32] else []) ++ n ++ [58, 32])) v hl hvv
-    rw [e3]
-    simp only []
-    rw [join_tidy _ _ _ t2, ih hxs _ true (tidy_append _ _ t3)]
-    simp [namedTail]
-
 theorem validInner_inline {i : Inline Bytes} (h : validInner (.inline i) = true) : validInline i = true := by
   unfold validInner at h
   split at h
@@ -379,6 +365,13 @@ theorem serArgs_cons (w : Writer) (written : Bool) (x : Inline Bytes) (xs : List
   simp only [serArgs, serPositional, lit_comma]
   cases serInline (if written = true then w.writeLiteral [44, 32] else w) x <;> rfl
 
+/-- what `serNamed_eq` proves about the named arguments (passed to `serArgs_eq` as a hypothesis, so that the
+mutual induction stays structural) -/
+def NamedSerOK (w : Writer) (named : List (Bytes × Inline Bytes)) : Prop :=
+  ∀ (acc : Bytes) (written : Bool), tidy acc = true →
+    (serNamed (w.writeLiteral acc) written named).map (fun w2 => w2.writeLiteral [41]) =
+      some (w.writeLiteral (acc ++ (if written && !named.isEmpty then [44, 32] else []) ++ namedTail named))
+
 mutual
 
 /-- **T2, serializer half.**  For a valid inline expression the serializer writes exactly
@@ -406,7 +399,8 @@ theorem serInline_eq_bytes (e : Inline Bytes) (hv : validInline e = true) (w : W
     simp only [validInline, Bool.and_eq_true] at hv
     obtain ⟨⟨⟨⟨hid, _⟩, hpos⟩, hnamed⟩, _⟩ := hv
     rw [serInline_fn, join_tidy _ _ _ (validIdent_tidy hid)]
-    have := serArgs_eq pos hpos w (id ++ [40]) false named (tidy_append _ _ (by decide)) hnamed
+    have := serArgs_eq pos hpos w (id ++ [40]) false named (tidy_append _ _ (by decide))
+          (fun acc wr ha => serNamed_eq named hnamed w acc wr ha)
     simp only [inlineBytes]
     simpa using this
   | term id attr args =>
@@ -434,13 +428,15 @@ theorem serInline_eq_bytes (e : Inline Bytes) (hv : validInline e = true) (w : W
       | none =>
         simp only [inlineBytes, attrBytes, List.append_nil]
         rw [join_tidy _ [45] id (by decide), join_tidy _ _ _ t1]
-        have := serArgs_eq pos hpos w ([45] ++ id ++ [40]) false named (tidy_append _ _ (by decide)) hnamed
+        have := serArgs_eq pos hpos w ([45] ++ id ++ [40]) false named (tidy_append _ _ (by decide))
+          (fun acc wr ha => serNamed_eq named hnamed w acc wr ha)
         simpa using this
       | some a =>
         have hj := attr_join_some w ([45] ++ id) a t1 hattr
         simp only [inlineBytes, attrBytes]
         rw [join_tidy _ [45] id (by decide), hj.1, join_tidy _ _ _ hj.2]
-        have := serArgs_eq pos hpos w ([45] ++ id ++ 46 :: a ++ [40]) false named (tidy_append _ _ (by decide)) hnamed
+        have := serArgs_eq pos hpos w ([45] ++ id ++ 46 :: a ++ [40]) false named (tidy_append _ _ (by decide))
+          (fun acc wr ha => serNamed_eq named hnamed w acc wr ha)
         simpa using this
   | placeable e =>
     cases e with
@@ -454,7 +450,7 @@ theorem serInline_eq_bytes (e : Inline Bytes) (hv : validInline e = true) (w : W
       exact ⟨by simp [join_tidy _ _ [125] t2], tidy_concat (123 :: inlineBytes i) 125 (by decide) (by decide)⟩
 
 theorem serArgs_eq (xs : List (Inline Bytes)) (hv : validInl xs = true) (w : Writer) (acc : Bytes) (written : Bool)
-    (named : List (Bytes × Inline Bytes)) (ha : tidy acc = true) (hn : validNamed named = true) :
+    (named : List (Bytes × Inline Bytes)) (ha : tidy acc = true) (hn : NamedSerOK w named) :
     serArgs (w.writeLiteral acc) written xs named =
         some (w.writeLiteral (acc ++ (if written && !(xs.isEmpty && named.isEmpty) then [44, 32] else []) ++
           posTail xs named.isEmpty (namedTail named))) ∧
@@ -462,7 +458,7 @@ theorem serArgs_eq (xs : List (Inline Bytes)) (hv : validInl xs = true) (w : Wri
           posTail xs named.isEmpty (namedTail named)) = true := by
   cases xs with
   | nil =>
-    have := serNamed_eq named hn w acc written ha
+    have := hn acc written ha
     simp only [serArgs, serPositional, posTail, List.isEmpty_nil, Bool.true_and]
     exact ⟨this, tidy_append _ _ (namedTail_tidy named)⟩
   | cons x xs =>
@@ -487,6 +483,31 @@ theorem serArgs_eq (xs : List (Inline Bytes)) (hv : validInl xs = true) (w : Wri
       cases written <;> cases xs <;> cases named <;> simp
     rw [e4] at e3 t3
     exact ⟨by rw [← e4], t3⟩
+
+theorem serNamed_eq (named : List (Bytes × Inline Bytes)) (hv : validNamed named = true) (w : Writer) (acc : Bytes)
+    (written : Bool) (ha : tidy acc = true) :
+    (serNamed (w.writeLiteral acc) written named).map (fun w2 => w2.writeLiteral [41]) =
+      some (w.writeLiteral (acc ++ (if written && !named.isEmpty then [44, 32] else []) ++ namedTail named)) := by
+  cases named with
+  | nil => simp [serNamed, namedTail, join_tidy _ _ _ ha]
+  | cons x xs =>
+    obtain ⟨n, v⟩ := x
+    simp only [validNamed, Bool.and_eq_true] at hv
+    obtain ⟨⟨⟨hn, _⟩, hvv⟩, hxs⟩ := hv
+    rw [serNamed]
+    simp only [lit_comma, lit_colon]
+    have e1 : (if written = true then (w.writeLiteral acc).writeLiteral [44, 32] else w.writeLiteral acc) =
+        w.writeLiteral (acc ++ if written then [44, 32] else []) := by
+      cases written <;> simp [join_tidy _ _ _ ha]
+    have t1 := tidy_app3 acc written ha
+    rw [e1, join_tidy _ _ _ t1, join_tidy _ _ _ (tidy_append _ _ (validIdent_tidy hn))]
+    have t2 : tidy ((acc ++ if written then [44, 32] else []) ++ n ++ [58, 32]) = true :=
+      tidy_append _ _ (by decide)
+    obtain ⟨e3, t3⟩ := serInline_eq_bytes v hvv (w.writeLiteral ((acc ++ if written then [44, 32] else []) ++ n ++ [58, 32]))
+    rw [e3]
+    simp only []
+    rw [join_tidy _ _ _ t2, serNamed_eq xs hxs _ _ true (tidy_append _ _ t3)]
+    simp [namedTail]
 
 end
 
